@@ -22,6 +22,7 @@ def check(run, tier):
                                  batch_p=0.8)
     traces += injected_failures(run, quick)
     traces += attr_then_commit(run, quick)
+    traces += placeholder_batches(run, quick)
     traces += over_connections(run, quick)
     E.judge(run, traces, only=ONLY, name="c08")
     E.summarise(run, traces)
@@ -131,6 +132,49 @@ def _attr_batches(args):
     finally:
         drv.close()
     return out
+
+
+def placeholder_batches(run, quick):
+    """[creating item, an unrelated item that FAILS, identifier-less items] with Continue: the failed item must not disturb
+    the later ones - they address the object the first item created (C08_placeholder in TraceEngine.tla)."""
+    from .. import engdrv as D, engtrace as T
+    sym = {"otype": "SymmetricKey", "attrs": [{"name": "Cryptographic Algorithm", "v": "AES"}, {"name": "Cryptographic Length", "v": 128},
+                                              {"name": "Cryptographic Usage Mask", "v": ["ENCRYPT"]}]}
+    creators = [("Create", sym),
+                ("Register", {"otype": "SecretData", "attrs": [{"name": "Cryptographic Usage Mask", "v": ["DERIVE_KEY"]}],
+                              "obj": {"type": "SecretData", "val": "pw"}})]
+    failing = [("Get", {"uid": 424242}), ("Activate", {"uid": 424242}), ("Destroy", {"uid": 424242}),
+               ("Create", {"otype": "SymmetricKey", "attrs": [{"name": "Cryptographic Algorithm", "v": "AES"}]}),
+               ("ModifyAttribute", {"uid": 424242, "attr": {"name": "Name", "idx": 0, "v": "zz"}}),
+               ("Revoke", {"uid": 424242, "code": "KEY_COMPROMISE"}), ("GetAttributes", {"uid": 424242, "names": []})]
+    later = [[("Activate", {"uid": 0}), ("GetAttributes", {"uid": 0, "names": ["State"]})],
+             [("GetAttributeList", {"uid": 0}), ("Destroy", {"uid": 0})],
+             [("Get", {"uid": 0}), ("Revoke", {"uid": 0, "code": "KEY_COMPROMISE"})]]
+    traces = []
+    drv = D.EngineDriver(intern=E.new_interner())
+    try:
+        drv.request(D.one("Create", sym))
+        snap = drv.db + ".ph"
+        drv.snapshot(snap)
+        k = 0
+        for cr in creators:
+            for fl in failing:
+                for lt in later:
+                    for ver in ([(1, 2)] if quick else [(1, 0), (1, 2), (2, 0)]):
+                        k += 1
+                        drv.load_snapshot(snap)
+                        rec = T.Recorder(drv, "ph%d" % k)
+                        items = [cr, fl] + lt
+                        rec.request({"user": "alice", "groups": None, "ver": list(ver), "opt": "Continue",
+                                     "items": [{"op": o, "bid": "b%d" % i, "p": dict(p)} for i, (o, p) in enumerate(items)]})
+                        rec.close()
+                        tr = rec.trace()
+                        tr["raw"] = rec.raw
+                        traces.append(tr)
+    finally:
+        drv.close()
+    run.extra["placeholder_batches"] = len(traces)
+    return traces
 
 
 def attr_then_commit(run, quick):
